@@ -17,6 +17,10 @@ and the monitors compare / check
   * every reachable learnable tensor is held by the optimizer,
   * adaptive point weights move upwards in the first step (direct sign probe, optimizers without weight decay),
   * snapshots of learnable + optimizer state before / after each validation run are identical.
+
+Staged worlds run 2-3 fits in ONE world (shared models / Parameters, own Solver + OptimizerSetting per stage, conditions
+reused or freshly built, bystander conditions never trained); every monitor above is evaluated per stage, and after
+each stage every learnable tensor of the shared objects is compared with the reference as well.
 """
 import numpy as np
 import torch
@@ -31,7 +35,12 @@ RULE = ("seeded generator of training worlds: 1-5 training conditions drawn from
         "AdamW, RMSprop, Adagrad (LBFGS on the thorough tier, state equality only), schedulers none / StepLR / "
         "ExponentialLR with frequency 1-3, 1-8 steps, 0-2 validation conditions with val_check_interval 1-3 and 0 or 2 "
         "sanity validation steps, one or several epochs (limit_train_batches), deterministic grid samplers (static or "
-        "not); a case is non-trivial when the state after every step was compared with a reference that moved; "
+        "not); plus STAGED worlds (about a quarter of the cases): 2-3 training stages in one world and one process, each "
+        "with its own Solver / Trainer / OptimizerSetting (created with explicit optimizer_args, WITHOUT the optimizer_args "
+        "argument, the Solver's default setting, or the previous stage's setting object with .lr changed), different "
+        "lr / optimizer / scheduler per stage, shared model and Parameter objects, conditions reused or freshly built, "
+        "bystander conditions built with the shared objects before the trained ones and never given to a Solver; nothing "
+        "of the library is reset between stages or cases of a worker process; a case is non-trivial when the state after every step was compared with a reference that moved; "
         "distinct = (condition kinds, model kinds, #parameters, optimizer, scheduler, validation, epochs)")
 REQUIRED_REACH = ["Solver.training_step", "Solver.on_train_start", "Solver.validation_step",
                   "Solver.configure_optimizers", "AdaptiveWeightLayer.GradReverse.backward", "Parameter.__init__",
@@ -45,6 +54,8 @@ ASSUMPTIONS = ["sampling is deterministic (products of grid samplers, static or 
                "of the scheduler frequency",
                "LBFGS (thorough tier): only learnable and optimizer state are compared; per-step call counts and "
                "iteration indices are not judged because the closure is evaluated several times per step",
+               "staged worlds: the reference builds a fresh optimizer per stage from the (class, lr, args, scheduler) the "
+               "stage was configured with; the iteration index restarts at 0 in every fit; no validation conditions",
                "the reference loop calls the library's condition objects for the individual losses (their value is "
                "property C04); the sum, the weights, the iteration index, the optimizer/scheduler handling and the "
                "ascent of adaptive weights are re-implemented by the harness"]
